@@ -22,15 +22,15 @@ from concurrent.futures import ThreadPoolExecutor
 from typing import Any
 
 from mc import c15_driver as drv
-from mc.c15_build import MODNAME, REFNAME, build
-from mc.c15_gen import generate, module_source
+from mc.c15_build import MODNAME, REFNAME, TREE, build
+from mc.c15_gen import generate, generate_chains, module_source
 from mc.common import NCPU, Ctx, Result, Violation, log, scratch, seeded_order
 
 PROPERTY = "C15"
 LEVEL = "exploration"
 
 OPTS = ["0", "3"]
-EXPECTED_LIB_RT = "/repo/mypyc/lib-rt"
+EXPECTED_LIB_RT = TREE + "/mypyc/lib-rt"
 
 
 def _driver_env() -> dict[str, str]:
@@ -70,6 +70,7 @@ def _progress(path: str) -> tuple[str, int]:
 
 def run_chunk(item: dict) -> dict:
     """Evaluate a list of specs against one build; survives (and localises) crashes of the driver process."""
+    t_chunk = time.time()
     specs = list(item["specs"])
     base = os.path.join(item["work"], f"chunk-{item['opt']}-{item['id']}")
     results: dict[str, Any] = {}
@@ -100,12 +101,13 @@ def run_chunk(item: dict) -> dict:
         sp = specs[idx]
         tjob = dict(job, specs=[sp], trace=True, out=base + ".trace.out")
         trc, _tout = _run_driver(tjob, base + ".trace.job", item["timeout"])
-        _n, cidx = _progress(job["progress"])
-        if "explicit" in item:
-            cs = [tuple(drv.dec(a) for a in c) for c in item["explicit"][sp["name"]]]
-        else:
-            cs = drv.cases(sp, item["extra_full"], item["wide"])
-        args = [drv.enc(a) for a in cs[cidx]] if trc < 0 and 0 <= cidx < len(cs) else None
+        args = None
+        if trc < 0:
+            try:
+                with open(job["progress"] + ".args") as f:
+                    args = json.load(f)
+            except (OSError, ValueError):
+                args = None
         crashes.append({"spec": sp, "signal": -rc, "args": args, "reproduced_in_trace": trc < 0})
         before, specs = specs[:idx], specs[idx + 1:]
         # results of the functions before the crash are lost with the process: re-run them on their own
@@ -114,12 +116,13 @@ def run_chunk(item: dict) -> dict:
             results.update(r2["results"])
             crashes.extend(r2["crashes"])
             herr.extend(r2["harness_errors"])
-    for suffix in (".job", ".progress", ".trace.job", ".trace.out"):
+    for suffix in (".job", ".progress", ".progress.args", ".trace.job", ".trace.out"):
         try:
             os.unlink(base + suffix)
         except OSError:
             pass
-    return {"opt": item["opt"], "id": item["id"], "results": results, "crashes": crashes, "harness_errors": herr}
+    return {"opt": item["opt"], "id": item["id"], "results": results, "crashes": crashes, "harness_errors": herr,
+            "seconds": round(time.time() - t_chunk, 2)}
 
 
 def make_chunks(specs: list[dict], n: int, extra_full: bool, wide: bool) -> list[list[dict]]:
@@ -134,15 +137,17 @@ def make_chunks(specs: list[dict], n: int, extra_full: bool, wide: bool) -> list
     return [[specs[i] for i in sorted(b)] for b in bins if b]
 
 
-def build_all(work: str, source: str, opts: list[str]) -> dict[str, dict]:
-    jobs = [{"dir": os.path.join(work, f"build-o{o}"), "opt": o, "source": source} for o in opts]
+def build_all(work: str, sources: dict[str, str], opts: list[str]) -> dict[tuple[str, str], dict]:
+    """Compile every (module, opt level) in parallel; key = (module tag, opt)."""
+    jobs = [{"dir": os.path.join(work, f"build-{tag}-o{o}"), "opt": o, "source": src, "tag": tag}
+            for tag, src in sources.items() for o in opts]
     with ThreadPoolExecutor(len(jobs)) as ex:
         res = list(ex.map(build, jobs))
-    return {r["opt"]: r for r in res}
+    return {(r["tag"], r["opt"]): r for r in res}
 
 
 def violation_from_mismatch(spec: dict, opt: str, m: dict) -> Violation:
-    what = (f"{spec['name']}({', '.join(drv.pretty(a) for a in m['args'])})  [{spec['src'].splitlines()[-1].strip()}; "
+    what = (f"{spec['name']}({', '.join(drv.pretty(a) for a in m['args'])})  [{'; '.join(ln.strip() for ln in spec['src'].splitlines()[1:])}; "
             f"{', '.join(spec['ptypes'])} -> {spec['ret']}] compiled(opt {opt}) {m['compiled']}, "
             f"interpreter {m['reference']} ({m['kind']}, {m['count']} operand tuples in this function)")
     if len(what) > 600:
@@ -166,30 +171,40 @@ def violation_from_crash(c: dict, opt: str) -> Violation:
 def run(ctx: Ctx) -> Result:
     t_start = time.time()
     cpu0 = _cpu_seconds()
-    source, specs = generate()
+    source, one_specs = generate()
+    chain_source, chain_specs = generate_chains()
+    modules = {"ops": (source, one_specs), "chains": (chain_source, chain_specs)}
+    specs = one_specs + chain_specs
     work = scratch("c15", f"run-{os.getpid()}")
     extra_full = True
     wide = ctx.thorough
     try:
-        builds = build_all(work, source, OPTS)
+        builds = build_all(work, {tag: src for tag, (src, _) in modules.items()}, OPTS)
         t_build = time.time() - t_start
-        for o, b in builds.items():
+        for (tag, o), b in builds.items():
             if not b["ok"]:
-                raise RuntimeError(f"mypyc build at opt {o} failed (rc={b['rc']}); nothing evaluated:\n{b['log'][-3000:]}")
+                raise RuntimeError(f"mypyc build of {tag} at opt {o} failed (rc={b['rc']}); nothing evaluated:\n"
+                                   f"{b['log'][-3000:]}")
             if b["lib_rt"] != EXPECTED_LIB_RT:
                 raise RuntimeError(f"build did not use the working tree's lib-rt: -I{b['lib_rt']!r}")
-        log(f"C15 builds: " + ", ".join(f"opt {o}: {b['seconds']}s" for o, b in sorted(builds.items())))
-        per_opt = max(2, NCPU // len(OPTS)) * (3 if wide else 1)
+        log("C15 builds: " + ", ".join(f"{tag} opt {o}: {b['seconds']}s" for (tag, o), b in sorted(builds.items())))
+        n_workers = NCPU * 4
+        weight = {tag: sum(drv.n_cases(sp, extra_full, wide) for sp in sps) for tag, (_, sps) in modules.items()}
         items = []
-        for o in OPTS:
-            for k, ch in enumerate(make_chunks(specs, per_opt, extra_full, wide)):
-                items.append({"opt": o, "id": k, "specs": ch, "build_dir": builds[o]["dir"], "work": work,
-                              "extra_full": extra_full, "wide": wide, "timeout": 900 if ctx.quick else 3000})
+        for tag, (_, sps) in modules.items():
+            share = max(2, round(n_workers * weight[tag] / sum(weight.values()) / len(OPTS)))
+            for o in OPTS:
+                for k, ch in enumerate(make_chunks(sps, share, extra_full, wide)):
+                    items.append({"opt": o, "id": f"{tag}{k}", "specs": ch, "build_dir": builds[(tag, o)]["dir"],
+                                  "work": work, "extra_full": extra_full, "wide": wide,
+                                  "timeout": 900 if ctx.quick else 3000})
         items = seeded_order(items, ctx.seed)
         t_eval0 = time.time()
         with ThreadPoolExecutor(NCPU) as ex:
             outs = list(ex.map(run_chunk, items))
         t_eval = time.time() - t_eval0
+        log("C15 chunk seconds (slowest 5): " + str(sorted((o["seconds"] for o in outs), reverse=True)[:5])
+            + f" of {len(outs)} chunks")
     finally:
         shutil.rmtree(work, ignore_errors=True)
 
@@ -211,8 +226,10 @@ def run(ctx: Ctx) -> Result:
         for name, r in out["results"].items():
             sp = by_name[name]
             evaluated[out["opt"]].add(name)
-            for k in ("n", "nontrivial", "free", "exceptions", "bad", "mixed"):
+            for k in ("n", "nontrivial", "free", "exceptions", "bad", "mixed", "renorm"):
                 tot[k] += r[k]
+            if sp.get("chain"):
+                tot["chain_n"] += r["n"]
             per_opt_evals[out["opt"]] += r["n"]
             fam_evals[sp["fam"]] += r["n"]
             type_evals[",".join(sp["ptypes"])] += r["n"]
@@ -220,7 +237,8 @@ def run(ctx: Ctx) -> Result:
             for j, m in enumerate(r["mismatches"]):
                 found.append(((order[name], out["opt"], j + 1), violation_from_mismatch(sp, out["opt"], m)))
             if r["sample"] and out["opt"] == "0" and name in ("b_mul__int__int", "b_fdiv__i64__i64", "b_sub__u8__u8",
-                                                              "b_mod__float__float", "b_shl__int__int"):
+                                                              "b_mod__float__float", "b_shl__int__int",
+                                                              "k_xor__eqc", "k_sub__i32"):
                 samples.append(r["sample"])
     found.sort(key=lambda t: t[0])
     violations = [v for _, v in found]
@@ -236,6 +254,8 @@ def run(ctx: Ctx) -> Result:
         vac.append(f"outcome kinds never observed: {sorted(need - outcome_kinds)}")
     if tot["nontrivial"] < 1000 or tot["mixed"] == 0:
         vac.append("no operands outside the short tagged range / no mixed short-long pairs")
+    if tot["renorm"] < 1000:
+        vac.append("no chain whose intermediate value fits a short int while an operand is a heap int")
     if tot["n"] < 100000 and not herr:
         vac.append(f"only {tot['n']} evaluations")
     if vac:
@@ -262,11 +282,18 @@ def run(ctx: Ctx) -> Result:
         "extra_whole_domain": "u8 x u8 (all 65536 pairs) for every u8 binary function; all 65536 i16 values for "
                               "every unary/literal i16 function",
         "mixed_short_long_int_pairs": tot["mixed"],
+        "chain_functions": len(chain_specs),
+        "chain_evaluations": tot["chain_n"],
+        "chains": "every int-producing operation (+ - * // % & | ^ << >> -x ~x abs() int(float) int(i64)) followed, "
+                  "inside the same compiled function, by each consumer of its result r: r==0, r==c, r!=c, r<c, if r, "
+                  "not r, bool(r), r+c, r&c, c-r, -r, float(r), i64/i32/i16/u8(r), `z: i64/i32 = r`; c from "
+                  f"{[drv.pretty(drv.enc(c)) for c in drv.C3_STATIC]} + the exact r and r+1",
+        "chain_evaluations_renormalised_intermediate": tot["renorm"],
         "cases_where_property_demands_nothing": tot["free"],
         "compiled_raised": tot["exceptions"],
         "distinct_outcome_kinds": sorted(outcome_kinds),
         "mismatching_evaluations": tot["bad"],
-        "build_seconds": {o: b["seconds"] for o, b in sorted(builds.items())},
+        "build_seconds": {f"{tag}-o{o}": b["seconds"] for (tag, o), b in sorted(builds.items())},
         "build_wall_seconds_parallel": round(t_build, 1),
         "evaluation_wall_seconds": round(t_eval, 1),
         "cpu_seconds_total": round(_cpu_seconds() - cpu0, 1),
@@ -280,6 +307,8 @@ def run(ctx: Ctx) -> Result:
         "signed fixed-width results that do not fit the type, float -> fixed-width conversions out of range and "
         "non-ZeroDivisionError reference exceptions on fixed-width operations are not judged (only crash freedom)",
         "exception messages are not compared, only exception types",
+        "chains: a conversion of an intermediate int to a fixed-width type must raise iff the exact value is out of "
+        "range, and return it otherwise",
         "operands beyond the stated boundary set: k=53, +-2^100 and +-2^1024 (int), a few extra floats; thorough tier: "
         "every k in 2..66; no random operands",
     ], harness_errors=herr)
@@ -294,12 +323,11 @@ def replay(ctx: Ctx, rec: dict) -> Result:
         b = build({"dir": os.path.join(work, "b"), "opt": d["opt"], "source": module_source([spec])})
         if not b["ok"]:
             raise RuntimeError("replay build failed:\n" + b["log"][-3000:])
-        if d.get("args") is None:
-            explicit = {spec["name"]: [[drv.enc(a) for a in c] for c in drv.cases(spec, True, ctx.thorough)]}
-        else:
-            explicit = {spec["name"]: [d["args"]]}
-        out = run_chunk({"opt": d["opt"], "id": 0, "specs": [spec], "build_dir": b["dir"], "work": work,
-                         "extra_full": True, "wide": ctx.thorough, "timeout": 600, "explicit": explicit})
+        item = {"opt": d["opt"], "id": 0, "specs": [spec], "build_dir": b["dir"], "work": work,
+                "extra_full": True, "wide": ctx.thorough, "timeout": 600}
+        if d.get("args") is not None:  # else (crash whose operands were not localised): the whole domain
+            item["explicit"] = {spec["name"]: [d["args"]]}
+        out = run_chunk(item)
         for c in out["crashes"]:
             viol.append(violation_from_crash(c, d["opt"]))
         for r in out["results"].values():
